@@ -564,7 +564,7 @@ func (db *PgDB) sendMyResult(c *myConn, res *pgResult, binaryRows bool, deprecat
 		if i < len(res.cols) {
 			typ = res.cols[i]
 		}
-		if err := c.columnDef("t", string(f.Name), typ); err != nil {
+		if err := c.columnDef(res.table, string(f.Name), typ); err != nil {
 			return err
 		}
 	}
